@@ -17,6 +17,7 @@ import (
 	"github.com/piotrnar/gocoin/lib/utxo"
 	"verif/env"
 	"verif/ref/consensus"
+	"verif/ref/interp"
 	"verif/ref/wire"
 )
 
@@ -31,6 +32,7 @@ type ParamSpec struct {
 	Prefix  int    `json:"prefix"` // empty blocks mined and delivered before the ops
 	Base    uint32 `json:"base,omitempty"` // height assigned to the genesis node (to reach halving boundaries)
 	Spacing uint32 `json:"spacing,omitempty"` // seconds between prefix blocks (default 600)
+	Signed  bool   `json:"signed,omitempty"`  // outputs may also be P2PKH / P2WPKH / P2SH-P2WPKH / P2TR (signed by the reference signer)
 	PowBits uint32 `json:"powbits,omitempty"`
 }
 
@@ -133,6 +135,7 @@ type Sim struct {
 	Cfg    Config
 	CurStep int // index of the op being executed (-1 during the prefix)
 	Hooks  Hooks
+	Signed bool     // also use signed output families (P2PKH, P2WPKH, P2SH-P2WPKH, P2TR key path)
 	Labels []string // class labels collected during the run
 	// ExcludedKeys: disagreements inside the class of an open known finding after which the history went on
 	ExcludedKeys []string
@@ -176,7 +179,7 @@ func NewCfg(ps ParamSpec, opts env.Options, cfg Config) (*Sim, error) {
 			return nil, err
 		}
 	}
-	s := &Sim{P: Params(ps), B: env.NewBuilder(), Dir: dir, Opts: opts, Cfg: cfg, CurStep: -1}
+	s := &Sim{P: Params(ps), B: env.NewBuilder(), Dir: dir, Opts: opts, Cfg: cfg, CurStep: -1, Signed: ps.Signed}
 	if !cfg.ModelOnly {
 		s.Node, err = env.Open(dir, s.P, opts)
 		if err != nil {
@@ -251,14 +254,16 @@ func (s *Sim) Valid(n *MNode) bool {
 	return true
 }
 
+// verifier judges scripts with the independent reference interpreter; the builder's by-construction
+// expectation is cross-checked against it (a disagreement is a bug of the harness, not of gocoin).
 func (s *Sim) verifier() consensus.ScriptVerifier {
 	return func(tx *wire.Tx, idx int, spent []wire.TxOut, flags uint32) bool {
+		ok, _ := interp.Verify(tx.In[idx].ScriptSig, spent[idx].PkScript, tx.In[idx].Witness, tx, idx, spent[idx].Value, spent, flags)
 		id := tx.TxID()
-		v, ok := s.B.Valid[consensus.OutKey(id, uint32(idx))]
-		if !ok {
-			panic("sim: script verdict of an input that the builder did not build")
+		if v, known := s.B.Valid[consensus.OutKey(id, uint32(idx))]; known && v != ok && !s.B.Loose[consensus.OutKey(id, uint32(idx))] {
+			panic(fmt.Sprintf("sim: harness bug: input %d of %x was built to be valid=%v, the reference interpreter says %v (pk %x)", idx, id[:6], v, ok, spent[idx].PkScript))
 		}
-		return v
+		return ok
 	}
 }
 
@@ -366,7 +371,7 @@ func (s *Sim) Step(op Op) error {
 		// after a restart the node knows exactly the blocks it had stored; invalid ones were dropped
 		err = s.compare("reopen")
 	default:
-		return nil
+		// ops of other checks (handled in their AfterStep hook)
 	}
 	if err == nil && s.Hooks.AfterStep != nil {
 		err = s.Hooks.AfterStep(s, op)
@@ -662,7 +667,16 @@ type cand struct {
 	coin consensus.Coin
 }
 
+// pending remembers single-input hand-made spends so that they can be re-signed after the violation code
+// changed their outputs / prevout / lock time.
+type pending struct {
+	tx    *wire.Tx
+	x     cand
+	valid bool
+}
+
 type bctx struct {
+	pendingSign []pending
 	s        *Sim
 	parent   *MNode
 	height   uint32
@@ -686,7 +700,7 @@ func (s *Sim) sortedCands(view consensus.UTXO, height uint32, segwit bool) (list
 		if !s.B.Spendable(c.Script) {
 			continue
 		}
-		if !segwit && len(c.Script) == 34 && c.Script[0] == 0 {
+		if needSW, needTR := s.B.NeedsWitness(c.Script); needSW && !segwit || needTR && !(s.P.TaprootHeight != 0 && height >= s.P.TaprootHeight) {
 			continue
 		}
 		if c.Coinbase && height-c.Height < consensus.CoinbaseMaturity {
@@ -711,6 +725,18 @@ func (c *bctx) take(sel int) (cand, bool) {
 func (c *bctx) outScript(o OutSpec) []byte {
 	b := c.s.B
 	n := int64(mod(o.N, 1000) + 17)
+	if c.s.Signed {
+		switch mod(o.Fam, 13) {
+		case 9:
+			return b.P2PKH(mod(o.N, 6))
+		case 10:
+			return b.P2WPKH(mod(o.N, 6))
+		case 11:
+			return b.P2SHP2WPKH(mod(o.N, 6))
+		case 12:
+			return b.P2TR(mod(o.N, 6))
+		}
+	}
 	switch mod(o.Fam, 9) {
 	case 0:
 		return b.True()
@@ -832,10 +858,21 @@ func (c *bctx) addTx(ts TxSpec, validLast bool) *wire.Tx {
 
 // finishTx signs (fills scripts), registers verdicts and the new outputs as spendable candidates.
 func (c *bctx) finishTx(tx *wire.Tx, coins []cand, validLast bool) {
+	spent := make([]wire.TxOut, len(coins))
+	for i, x := range coins {
+		spent[i] = wire.TxOut{Value: x.coin.Value, PkScript: x.coin.Script}
+	}
 	for i, x := range coins {
 		v := validLast || i != len(coins)-1
 		if !c.s.B.Spend(tx, i, x.coin.Script, v) {
 			panic("sim: cannot build spend")
+		}
+	}
+	for i, x := range coins {
+		if c.s.B.Signed(x.coin.Script) {
+			if !c.s.B.SpendSigned(tx, i, spent, validLast || i != len(coins)-1) {
+				panic("sim: cannot sign")
+			}
 		}
 	}
 	id := tx.TxID()
@@ -844,7 +881,8 @@ func (c *bctx) finishTx(tx *wire.Tx, coins []cand, validLast bool) {
 	}
 	c.txs = append(c.txs, tx)
 	for j, o := range tx.Out {
-		if c.s.B.Spendable(o.PkScript) && (c.segwit || !(len(o.PkScript) == 34 && o.PkScript[0] == 0)) {
+		needSW, needTR := c.s.B.NeedsWitness(o.PkScript)
+		if c.s.B.Spendable(o.PkScript) && (c.segwit || !needSW) && (!needTR || c.s.P.TaprootHeight != 0 && c.height >= c.s.P.TaprootHeight) {
 			c.list = append(c.list, cand{consensus.OutKey(id, uint32(j)), consensus.Coin{Value: o.Value, Script: o.PkScript, Height: c.height}})
 		}
 	}
@@ -852,7 +890,21 @@ func (c *bctx) finishTx(tx *wire.Tx, coins []cand, validLast bool) {
 
 // rawTx appends a hand-made transaction whose inputs need no script data (or fail anyway).
 func (c *bctx) rawTx(tx *wire.Tx, verdicts ...bool) {
+	for _, p := range c.pendingSign {
+		if p.tx == tx && c.s.B.Signed(p.x.coin.Script) {
+			spent := make([]wire.TxOut, len(tx.In))
+			for i := range spent {
+				spent[i] = wire.TxOut{Value: p.x.coin.Value, PkScript: p.x.coin.Script}
+			}
+			for i := range tx.In {
+				c.s.B.SpendSigned(tx, i, spent, p.valid)
+			}
+		}
+	}
 	id := tx.TxID()
+	for i := range tx.In {
+		c.s.B.Loose[consensus.OutKey(id, uint32(i))] = true
+	}
 	for i := range tx.In {
 		v := true
 		if i < len(verdicts) {
